@@ -42,7 +42,8 @@ def main():
         own = set(scope.owned_by(prop))
         uses = {s for s, u in scope.USERS.items() if prop in u}
         clo = set(scope.generated_in([f'OnlVerif.Props.{prop}'] + list(extra)))
-        foreign = {s for s in clo if scope.is_foreign(s, prop) and s not in uses}
+        via_theorems = {s for s, u in getattr(scope, 'THEOREM_USERS', {}).items() if prop in u}      # imports the owner's Props module
+        foreign = {s for s in clo if scope.is_foreign(s, prop) and s not in uses and s not in via_theorems}
         print(f'{prop:6}{",".join(sorted(own)) or "-":44}{",".join(sorted(uses)) or "-":10}{",".join(sorted(clo)) or "-"}')
         if foreign:
             bad.append(f'{prop}: its proof modules import generated files of other properties: {sorted(foreign)}')
